@@ -313,10 +313,6 @@ def wrapper_structural(res, opts):
             args = 'source, fd' if op.startswith('add') else 'fd'
             ok = body == ['super().%s(%s)' % (op, args), 'self._updateRegistration(fd)']
             add_ob(res, '%s.%s.is_base_op_then_updateRegistration' % (kind, op), ok, 'ast', detail='; '.join(body))
-        node, _ = mod.find('%s.__init__' % kind)
-        src = ast.unparse(node)
-        flag = 'select.POLLHUP | select.POLLERR | select.POLLNVAL' if kind == 'Poll' else 'select.EPOLLHUP | select.EPOLLERR'
-        add_ob(res, '%s.__init__.disconnected_flag' % kind, ('self._disconnected_flag = ' + flag) in src, 'ast', detail=flag)
     # handler priorities: pollers run after timers, before the fallback generator (used by C09 too)
     node, _ = mod.find('BasePoller._on_generate_events')
     add_ob(res, 'BasePoller._on_generate_events.decorator', "handler('generate_events', priority=-9)" in [ast.unparse(d) for d in node.decorator_list],
@@ -411,6 +407,13 @@ def proc_post(kind):
         I.oblige('readable_registered_is_reported', z3.Implies(z3.And(ev % 2 == 1, z3.Not(is_ctrl)), z3.BoolVal(nread == 1)))
         I.oblige('writable_registered_is_reported', z3.Implies(z3.And((ev / 4) % 2 == 1, z3.Not(is_ctrl), z3.Not(z3.And(hup, ev % 2 == 0))),
                                                               z3.BoolVal(nwrite == 1)))
+        # closed / hung-up / failed descriptor without pending input: forgotten at once ("closed descriptors produce no further events
+        # even when their number is reused": the entry that would mis-route the reused number's events must go)
+        nval = (ev / 32) % 2 == 1
+        I.oblige('invalid_or_hung_up_descriptor_is_discarded',
+                 z3.Implies(z3.And(z3.Or(hup, nval) if kind == 'Poll' else hup, ev % 2 == 0, z3.Not(is_ctrl)), z3.BoolVal(ndisc == 1)),
+                 detail='the kernel reported the descriptor closed (POLLNVAL), hung up or in error, with no input pending, and it was not '
+                        'discarded: its table and map entries survive and catch the events of the next descriptor with that number')
         if ndisc:
             cover(I, 'hangup')
             # hang-up/error arm: everything for fd is discarded
@@ -427,7 +430,7 @@ for kind, flag in (('Poll', 56), ('EPoll', 24)):
                          calls=dict(KCALLS, **{'self.fire': s_fire, 'self.getTarget': s_getTarget, '_read': lambda I, r, a, k: VCons('_read', a),
                                                '_write': lambda I, r, a, k: VCons('_write', a), '_disconnect': lambda I, r, a, k: VCons('_disconnect', a),
                                                '_error': lambda I, r, a, k: VCons('_error', a), 'self._read_ctrl': noop}),
-                         env=POLL_CONSTS, getattr_hooks={'_disconnected_flag': lambda I, o, f=flag: VInt(f)},
+                         env=POLL_CONSTS,   # self._disconnected_flag: read off __init__ (instance constant)
                          cover=['return', 'read_emitted', 'write_emitted', 'hangup'],
                          clause='%s._process: under Mirror and the kernel contract, a _read/_write event is emitted iff the mapped '
                                 'descriptor is registered for that role and reported ready, addressed to its target; the hang-up arm '
